@@ -299,6 +299,12 @@ def run_program(item):
     gnames = [g[0] for g in got]
     if gnames != item['exp_names']:
         return dict(ok=False, why='resource list after program differs', observed=gnames)
+    if s1['kind'] == 'dup' and s1['dst'] in gnames:
+        # the copy is an exact copy of the original whatever happens to the original afterwards
+        want = [dict(a=1, b='x', rid=0), dict(a=2, b='y', rid=0), dict(a=1, b='x', rid=0)]
+        rows = [{k: v for k, v in r.items() if k in ('a', 'b', 'rid')} for n, d, r_ in got if n == s1['dst'] for r in r_]
+        if rows != want:
+            return dict(ok=False, why='the duplicated resource lost or changed rows after a step on the other resources', observed=rows)
     if s2['kind'] == 'retype':
         b = sorted(n for n, d, r in got if any(f['name'] == 'zA' and f['type'] == 'any' for f in d['schema']['fields']))
         if b != sorted(item['exp_B']):
@@ -445,6 +451,14 @@ def run():
         c2 = r.choice(cands)
         nal += 1
         b = [n1[p - 1] for p in c2['selected']]
+        if r.random() < 0.3:
+            # delete exactly the original after duplicating it: the copy must survive intact
+            dels = [c for c in by_names.get(n1, []) if c['kind'] == 'delete' and c['selected'] == [1]]
+            if dels:
+                cd = r.choice(dels)
+                progs.append(dict(names=list(names), s1=dict(sel=dict(k='none'), kind='dup', src=names[0], dst=dst, marker='A'),
+                                  s2=dict(sel=cd['sel'], kind='delete', marker='B'), exp_names=list(n1[1:]), exp_A=[], exp_B=[]))
+                continue
         if r.random() < 0.5:
             progs.append(dict(names=list(names), s1=dict(sel=dict(k='none'), kind='dup', src=names[0], dst=dst, marker='A'),
                               s2=dict(sel=c2['sel'], kind='touch', marker='A'), exp_names=list(n1), exp_A=b, exp_B=[]))
